@@ -27,13 +27,18 @@ def props(unchecked, fault=True):
 
 
 def idx(L, shape):
+    if shape == 'narrowed':
+        # `(p + q) is byte` used as an int (index, length): a narrowing cast of a computed value, widened again
+        return ast.ByteToInt(ast.IntToByte(ast.Add(None, L.opaque('ip'), L.opaque('iq'))))
     return getattr(L, shape)('i', I)
 
 
 def run_lookup(el, w, unchecked, tier):
     res = []
-    for (where, access), ish, keep in itertools.product(SOURCES, ('opaque', 'literal', 'local', 'glob'), (False, True)):
+    for (where, access), ish, keep in itertools.product(SOURCES, ('opaque', 'literal', 'local', 'glob', 'narrowed'), (False, True)):
         if tier == 'quick' and keep and ish in ('literal', 'glob'):
+            continue
+        if ish == 'narrowed' and (where, access) not in (('local', AccessMode.RW), ('glob', AccessMode.RC)):
             continue
         for r_out in (('r1',) if tier == 'quick' else ('r0', 'r1', 'r2')):
             L = Lemma(f'array/lookup/{el}/{where}-{access.name}/idx={ish}/keep={int(keep)}/{r_out}/w{w}/{"unchecked" if unchecked else "checked"}', w, unchecked)
@@ -110,18 +115,30 @@ def run_assign(el, w, unchecked, tier, part=None):
     for where in ('local', 'glob'):
         # index shapes include a mutable global: the right-hand side may change it, the element addressed must be the one
         # the index denoted when it was evaluated (before the right-hand side)
-        for ish in ('opaque', 'literal', 'local', 'glob'):
-            if part is not None and part != f'{where}-{ish}':
+        for ish in ('opaque', 'literal', 'local', 'glob', 'narrowed'):
+            if part is not None and part != f'{where}-{ish}' and not (ish == 'narrowed' and part == f'{where}-opaque'):
                 continue          # (thorough tier: one task per array storage x index shape)
             for rsh in RHS[el]:
                 for opn, op in ops.items():
                     if op is not None and (el == B or (tier == 'quick' and (ish not in ('opaque', 'glob') or rsh == 'local'))):
                         continue
+                    if ish == 'narrowed' and (rsh != 'opaque' or opn not in (None, 'Add')):
+                        continue
                     L = Lemma(f'array/assign/{el}/{where}/idx={ish}/rhs={rsh}/op={opn}/w{w}/{"unchecked" if unchecked else "checked"}', w, unchecked)
                     L.functions.update(GEN)
                     try:
                         a = L.array_var('a', el, where, AccessMode.RW)
-                        lk = ast.ArrayLookup(a, idx(L, ish), SPAN.end)
+                        ix = idx(L, ish)
+                        lk = ast.ArrayLookup(a, ix, SPAN.end)
+                        if unchecked and ish in ('local', 'glob'):
+                            # C15 speaks about fault-free runs: for an index that is a variable (its value is part of the entry state) the
+                            # unchecked lemma is stated under "the index is in bounds" (otherwise the run is undefined and nothing is claimed);
+                            # this also spares the solver the aliasing of an arbitrary store address with the frame
+                            from contracts import isa as _isa
+                            import z3 as _z3
+                            av = L.vars['a'][1]; adr, size = L.var_address(ix.var)
+                            iv = _isa.sx(L._word(L.entry.mem, adr), L.M)
+                            L.ctx.pre += [iv >= 0, iv < _isa.sx(av.length, L.M)]
                         e = rhs(L, rsh, el if el != Y or op is None else I)
                         if op is None:
                             s = ast.Assignment(lk, e)
@@ -198,9 +215,10 @@ def tasks(tier):
                     if fam == 'assign' and tier == 'thorough':
                         for where in ('local', 'glob'):
                             for ish in ('opaque', 'literal', 'local', 'glob'):
-                                if w == 4 and unchecked:
-                                    # compound assignment at 32 bit in unchecked builds: a handful of obligations time out under load (DESIGN 16.10);
-                                    # the unchecked instances are discharged at w = 2, 3, the checked ones at w = 2, 3, 4
+                                if w == 4 and unchecked and ish in ('opaque', 'literal'):
+                                    # compound assignment at 32 bit in unchecked builds with an index that is not a variable of the entry state: a
+                                    # handful of obligations time out under load (DESIGN 16.10); discharged at w = 2, 3 (the variable-index
+                                    # instances, stated under "index in bounds", are discharged at w = 4 too)
                                     continue
                                 out.append(task(MOD, 'run', P, label=f'array/{fam}/{el}/{where}-{ish}/w{w}/u{int(unchecked)}', cost=8 * w * (2 if unchecked else 1),
                                                 family=fam, el=el, w=w, unchecked=unchecked, tier=tier, part=f'{where}-{ish}'))
